@@ -1,4 +1,5 @@
-"""Pool subclasses adding public members (C16: 'and subclasses adding public members')."""
+"""Pool subclasses adding public members (C16: 'and subclasses adding public members'), overriding inherited ones
+and adding static methods: a command must reach what the served pool's own class defines (C17)."""
 
 from __future__ import annotations
 
@@ -30,6 +31,43 @@ class ExtTaskPool(TaskPool):
     def no_doc(self, flag: bool = False) -> int:
         return 2
 
+    # --- inherited public members, overridden
+    def lock(self) -> None:
+        """Disallows any more tasks to be started in the pool (and counts how often that was asked for)."""
+        self._lock_calls = getattr(self, "_lock_calls", 0) + 1
+        super().lock()
+
+    @property
+    def lock_calls(self) -> int:
+        """How many times `lock` was called on this pool."""
+        return getattr(self, "_lock_calls", 0)
+
+    @property
+    def pool_size(self) -> int:
+        """Maximum number of concurrently running tasks allowed in the pool (never more than 8 here)."""
+        return TaskPool.pool_size.fget(self)  # type: ignore[attr-defined]
+
+    @pool_size.setter
+    def pool_size(self, value: int) -> None:
+        TaskPool.pool_size.fset(self, min(value, 8))  # type: ignore[attr-defined]
+
+    def cancel_all(self, msg: str | None = None) -> None:
+        """Cancels all tasks in the pool - unless the pool is locked."""
+        if self.is_locked:
+            raise RuntimeError("refusing to cancel everything in a locked pool")
+        super().cancel_all(msg=msg)
+
+    # --- static methods are public members, too
+    @staticmethod
+    def version() -> str:
+        """The version of this pool class."""
+        return "ext-1"
+
+    @staticmethod
+    def ratio(numerator: int, denominator: int = 2) -> int:
+        """Integer division, for no particular reason."""
+        return numerator // denominator
+
 
 class ExtSimpleTaskPool(SimpleTaskPool):
     def double_up(self) -> int:
@@ -50,3 +88,23 @@ class ExtSimpleTaskPool(SimpleTaskPool):
     @blank_prop.setter
     def blank_prop(self, value: int) -> None:
         self._blank = value
+
+    def stop_all(self) -> list[int]:
+        """Cancels all running tasks and remembers how many that were."""
+        ids = super().stop_all()
+        self._stopped_total = getattr(self, "_stopped_total", 0) + len(ids)
+        return ids
+
+    @property
+    def stopped_total(self) -> int:
+        """How many tasks `stop_all` has cancelled so far."""
+        return getattr(self, "_stopped_total", 0)
+
+    @staticmethod
+    async def settle(rounds: int = 1) -> int:
+        """Yields to the event loop a few times."""
+        import asyncio
+
+        for _ in range(min(rounds, 3)):
+            await asyncio.sleep(0)
+        return rounds
